@@ -74,6 +74,53 @@ impl Family for BigChunk {
     }
 }
 
+/// more long data for one parameter than any single command may carry: five chunks of 14 MiB for
+/// parameter 0 and a short one for parameter 1, then the execution (70 MiB delivered), then an
+/// inline one. There is no limit on accumulated long data in the protocol or in the property.
+struct ManyLargeChunks;
+impl Family for ManyLargeChunks {
+    fn name(&self) -> String {
+        "many-large-chunks-for-one-parameter".into()
+    }
+    fn len(&self) -> u64 {
+        1
+    }
+    fn run(&self, _idx: u64, st: &mut Stats) -> Result<(), Violation> {
+        st.nontrivial += 1;
+        st.bump("many_large_chunks");
+        let chunk: Vec<u8> = (0..14 * 1024 * 1024).map(|i| (i % 247) as u8).collect();
+        let blk = exec_block(
+            &[
+                ExecParam { ty: 0xfc, unsigned: false, wire: None, long: true },
+                ExecParam { ty: 0xfc, unsigned: false, wire: None, long: true },
+            ],
+            true,
+        );
+        let mut payloads = vec![with_byte(COM_STMT_PREPARE, b"id=1 p=2")];
+        for _ in 0..5 {
+            payloads.push(cmd_long(1, 0, &chunk));
+        }
+        payloads.push(cmd_long(1, 1, b"side"));
+        payloads.push(cmd_execute(1, 0, 1, &blk));
+        payloads.push(cmd_execute(
+            1,
+            0,
+            1,
+            &exec_block(
+                &[
+                    ExecParam { ty: 0xfc, unsigned: false, wire: Some(vec![1, b'a']), long: false },
+                    ExecParam { ty: 0xfc, unsigned: false, wire: Some(vec![1, b'b']), long: false },
+                ],
+                false,
+            ),
+        ));
+        run_payloads(&payloads, &[], st).map(|_| ())
+    }
+    fn describe(&self, _idx: u64) -> J {
+        json!({"chunks": 5, "chunk_bytes": 14 * 1024 * 1024, "then": "a short chunk for the other parameter, execute, execute inline"})
+    }
+}
+
 pub fn build(quick: bool) -> Check {
     let alpha = alphabet();
     let prefix = vec![Action::Prepare { id: 1, n: 2, ok: true }, Action::Prepare { id: 2, n: 2, ok: true }];
@@ -113,18 +160,19 @@ pub fn build(quick: bool) -> Check {
         max_states: if quick { 3000 } else { 300_000 },
     }));
     families.push(Box::new(BigChunk));
+    families.push(Box::new(ManyLargeChunks));
     families.push(Box::new(Histories { label: "long-data".into(), hists: scale_long_data() }));
     families.push(Box::new(Histories { label: "long-data-counter-wraps".into(), hists: wraps_long_data(quick) }));
     families.push(Box::new(super::soak::Soak { label: "chunks-and-silence", lens: super::soak::lens(quick), mixes: vec![super::soak::Mix::Chunks, super::soak::Mix::Silent, super::soak::Mix::Even], opts: super::soak::opts_all(), big: vec![] }));
     Check {
         id: "C17",
         level: "model_checking",
-        rule: format!("two prepared statements of 2 parameters; histories over {} actions: LONG_DATA(id 1|2, parameter 0|1|out of range, chunk \"\"|\"xy\"|\"z\"; 2000- and 12000-byte chunks), EXECUTE(bind LONG | VAR_STRING | MYSQL_TYPE_NULL | reuse; first parameter NULL), CLOSE, re-PREPARE; the client omits inline bytes for parameters with pending long data. Full tree to depth {} (thorough: depth 6 over the alphabet without the large chunks) plus BFS over model states (pending data capped at 4 bytes per parameter) with two witnesses; every interleaving of <= 7 (thorough: 9) actions over (chunk for parameter 0|1 of statement 1|2, EXECUTE 1|2) and of <= 6 (7) with CLOSE 1 / PREPARE 1 added; plus a chunk of 2*(2^24-1)+5 bytes; plus long data followed by 8..600 inline executions of the same statement; 2..1000 chunks streamed round-robin to 2-3 parameters; 2000/12000/70000-byte buffers abandoned by CLOSE or emptied by EXECUTE followed by small long data; pairs of statement ids that agree in their low 8/16/24 bits or differ only in the top bit. Long scripted sessions: 130..4099 (thorough: up to 131101) ordinary commands of every kind on one connection in up to six mixes (even, prepare/close churn with growing ids, executions, long-data chunks, unanswered commands, text and library-answered commands) under several client/transport behaviours (pipelined, request ids advancing by 7, lock-step, 1..4093-byte reads, 7/11-byte writes), generated by a fixed rule, kept valid with the registry model and judged on the complete trace (callbacks with arguments, result, strict decode of every reply with its sequence ids). Oracle: the parameter is the in-order concatenation for that statement and parameter, the other parameters keep their inline values, delivery happens to exactly one execution and never to another statement.", alpha.len(), if quick {4} else {5}),
+        rule: format!("two prepared statements of 2 parameters; histories over {} actions: LONG_DATA(id 1|2, parameter 0|1|out of range, chunk \"\"|\"xy\"|\"z\"; 2000- and 12000-byte chunks), EXECUTE(bind LONG | VAR_STRING | MYSQL_TYPE_NULL | reuse; first parameter NULL), CLOSE, re-PREPARE; the client omits inline bytes for parameters with pending long data. Full tree to depth {} (thorough: depth 6 over the alphabet without the large chunks) plus BFS over model states (pending data capped at 4 bytes per parameter) with two witnesses; every interleaving of <= 7 (thorough: 9) actions over (chunk for parameter 0|1 of statement 1|2, EXECUTE 1|2) and of <= 6 (7) with CLOSE 1 / PREPARE 1 added; plus a chunk of 2*(2^24-1)+5 bytes; five chunks of 14 MiB for one parameter (70 MiB delivered); plus long data followed by 8..600 inline executions of the same statement; 2..1000 chunks streamed round-robin to 2-3 parameters; 2000/12000/70000-byte buffers abandoned by CLOSE or emptied by EXECUTE followed by small long data; pairs of statement ids that agree in their low 8/16/24 bits or differ only in the top bit. Long scripted sessions: 130..4099 (thorough: up to 131101) ordinary commands of every kind on one connection in up to six mixes (even, prepare/close churn with growing ids, executions, long-data chunks, unanswered commands, text and library-answered commands) under several client/transport behaviours (pipelined, request ids advancing by 7, lock-step, 1..4093-byte reads, 7/11-byte writes), generated by a fixed rule, kept valid with the registry model and judged on the complete trace (callbacks with arguments, result, strict decode of every reply with its sequence ids). Oracle: the parameter is the in-order concatenation for that statement and parameter, the other parameters keep their inline values, delivery happens to exactly one execution and never to another statement.", alpha.len(), if quick {4} else {5}),
         assumptions: vec!["an empty chunk still marks the parameter as supplied by long data (MySQL semantics: the value is the empty string)".into()],
         bounds: json!({"tree_depth": if quick {4} else {5}, "core_tree_depth": if quick {0} else {6}, "alphabet": alpha.len()}),
         exhaustive: true,
         caps_hit: vec![],
         families,
-        required: vec!["soak_sessions", "execute_with_pending_long_data", "multi_packet_chunks", "bfs_states", "long_histories"],
+        required: vec!["soak_sessions", "execute_with_pending_long_data", "multi_packet_chunks", "many_large_chunks", "bfs_states", "long_histories"],
     }
 }
